@@ -41,6 +41,8 @@ def special_programs():
     out.append(("dotimes-empty", [[[S("dotimes"), [S("i"), 6]], [S("probe"), Q(S("after"))]]]))
     out.append(("dotimes-body", [[[S("dotimes"), [S("i"), 4, [S("probe"), Q(S("res")), S("i")]], [S("probe"), Q(S("t")), S("i")]], [S("probe"), Q(S("after"))]]]))
     out.append(("dotimes-nested", [[[S("dotimes"), [S("i"), 3], [S("dotimes"), [S("j"), 2], [S("probe"), S("i"), S("j")]]]]]))
+    out.append(("dotimes-swallowed", [[[S("probe"), 1], [S("ignore-errors"), [S("dotimes"), [S("i"), 9]]], [S("probe"), 2],
+                                       [S("handler-bind"), [[S("condition"), [S("lambda"), [S("c"), S("&rest"), S("r")], S("c")]]], [S("dotimes"), [S("i"), 5]]], [S("probe"), 3]]]))
     out.append(("macro-rec", [[[S("defmacro"), S("cnt"), [S("n")], [S("if"), [S("<="), S("n"), 0], [S("quasiquote"), [S("probe"), Q(S("z"))]],
                                                                  [S("quasiquote"), [S("cnt"), [S("unquote"), [S("-"), S("n"), 1]]]]]],
                                [S("cnt"), 5], [S("probe"), Q(S("after"))]]]))
